@@ -257,6 +257,14 @@ fn gen_profile(profile: &str, seed: u64, n: usize, thorough: bool, out: &mut Out
             for _ in 0..n {
                 out.script(&gen::gen_c13(&mut r));
             }
+            // several runners alive at once: distinct directories, stable, existing, removed on drop
+            for k in 2..6 {
+                writeln!(out.cases, "testdir {}", k).unwrap();
+                writeln!(out.imp, "{}", script::run_testdir_probe(k)).unwrap();
+                writeln!(out.tags, "c13 testdir").unwrap();
+                writeln!(out.expect, "-").unwrap();
+                out.n += 1;
+            }
         }
         "c15" => {
             for _ in 0..n {
@@ -439,6 +447,7 @@ fn replay_line(line: &str) -> String {
         "script" => decode_script(&t).run(),
         "parse" => parseop::run_parse(t[1] == "1", &enc::unhx(t[2])),
         "fmt" => fmtop::run_fmt(&enc::unhx(t[1])).0,
+        "testdir" => script::run_testdir_probe(t[1].parse().unwrap_or(2)),
         _ => "unknown-op".into(),
     }
 }
